@@ -19,6 +19,9 @@ const PayloadType = "application/vnd.in-toto+json"
 // ErrInvalidPayloadType indicates that the envelope used an unknown payload type
 var ErrInvalidPayloadType = errors.New("unknown payload type")
 
+// ErrNoPayload indicates that an envelope is used before a payload has been set
+var ErrNoPayload = errors.New("envelope has no payload")
+
 type Envelope struct {
 	envelope *dsse.Envelope
 	payload  any
@@ -84,6 +87,10 @@ func (e *Envelope) VerifySignature(key Key) error {
 		return err
 	}
 
+	if e.envelope == nil {
+		return ErrNoPayload
+	}
+
 	_, err = ev.Verify(context.Background(), e.envelope)
 	return err
 }
@@ -97,6 +104,10 @@ func (e *Envelope) Sign(key Key) error {
 	es, err := dsse.NewEnvelopeSigner(signer)
 	if err != nil {
 		return err
+	}
+
+	if e.envelope == nil {
+		return ErrNoPayload
 	}
 
 	payload, err := e.envelope.DecodeB64Payload()
@@ -122,6 +133,9 @@ func (e *Envelope) Sign(key Key) error {
 
 func (e *Envelope) Sigs() []Signature {
 	sigs := []Signature{}
+	if e.envelope == nil {
+		return sigs
+	}
 	for _, s := range e.envelope.Signatures {
 		sigs = append(sigs, Signature{
 			KeyID: s.KeyID,
